@@ -2,6 +2,8 @@ import ElvProofs.C39.Sound
 import ElvProofs.C39.Serial
 import ElvProofs.C39.Witness
 import ElvProofs.C39.UseOnce
+import ElvProofs.C39.ConcWitness
+import ElvProofs.C39.ConcTotal
 /-!
 # C39 — one interpreter can safely be used from many goroutines
 
@@ -197,6 +199,42 @@ theorem C39_counterexample_twice :
     (Use.run false (Use.init 2) [0, 1, 0, 1, 0, 1]).execs = 2 ∧
     (Use.run false (Use.init 2) [0, 1, 0, 1, 0, 1]).pcs = [.done 0, .done 1] := by decide
 
+/-! ### Check-then-act on the module table (the second static obligation) -/
+
+/-- **Test-and-set gives at-most-once installation.**  If the check-then-act
+obligation holds for the table extracted from the source — every write of
+`modules[k]` reachable from `use` is a direct write inside an exclusive
+critical section, guarded by a direct lookup of the same key in the SAME
+section — then in every execution (any number of goroutines, any interleaving
+of lock / unlock / lookup / insert / delete events that respects the mutex and
+in which each write is made the way its table entry says) an installed entry is
+never overwritten, and there is at most one insertion more than deletions
+(without a failing module: at most one insertion). -/
+theorem C39_check_then_act_once (tbl : List CtaSite) (h : ctaCheck tbl = .tas)
+    (tr : List Cta.Ev) (s : Cta.State) (hr : Cta.run tbl Cta.init tr = some s) :
+    s.overwrites = 0 ∧ s.inserts ≤ s.deletes + 1 := by
+  obtain ⟨h1, h2, _⟩ := Cta.inv_run (Cta.allTas_of_check h) tr _ _ Cta.inv_init hr
+  refine ⟨h1, ?_⟩
+  rw [h2]; split <;> omega
+
+/-- Non-vacuity: the table of the fixed tree satisfies the obligation; the
+execution "goroutine 0 installs, goroutine 1 finds the entry" is one the table
+describes (one insertion); the execution in which goroutine 1 inserts after
+having found the entry is not. -/
+example : ctaCheck Cta.Witness.fixedTbl = .tas ∧
+    (Cta.run Cta.Witness.fixedTbl Cta.init Cta.Witness.goodTrace).map (·.inserts) = some 1 ∧
+    Cta.run Cta.Witness.fixedTbl Cta.init Cta.Witness.badTrace = none := by decide
+
+/-- The seeded change `installModule = loadedModule; AddModule` (every access
+locked, so the lockset obligation still holds) fails the check-then-act
+obligation, and not as a false alarm: the execution in which two goroutines
+both look the key up, both find nothing and both insert is one its table
+describes — two insertions, one installed namespace overwritten. -/
+theorem C39_counterexample_split :
+    ctaCheck Cta.Witness.seededTbl = .split "eval.go:Evaler.installModule:231(via AddModule)" ∧
+    (Cta.run Cta.Witness.seededTbl Cta.init Cta.Witness.splitTrace).map (fun s => (s.inserts, s.overwrites)) =
+      some (2, 1) := by decide
+
 /-! ### "Results are ones some sequential order could produce" -/
 
 /-- Serialisability of whole evaluations at full strength, for an arbitrary
@@ -219,6 +257,107 @@ def C39_serialisable_full {S E R : Type} (step : S → E → S × R)
         let (s', r) := step acc.1 e
         (s', acc.2 ++ [(e, r)])) (s, [])
       run.1 = out.1 ∧ run.2.Perm out.2
+
+/-- **Serialisability for the commutative program class** (round 2).
+
+The concurrent semantics is `ElvModel/C39/Concurrent.lean`: the goroutines of an
+op run their API actions (Eval on the shared or a private namespace, Call,
+Check) on one Evaler; every statement is one or more atomic steps; the steps of
+different goroutines and of the branches of `peach` / `run-parallel` inside one
+evaluation interleave arbitrarily (`Exec`); `use` is the protocol of the fixed
+code (lookup, then test-and-set installer, the winner runs the module body —
+which may import further modules, also circularly); `$m:x` of a module whose
+body has not finished is `$nil`.
+
+The class is the decidable syntactic predicate `Conc.inClass w prog`: shared
+state is touched only through counters, set-only flags and module imports of
+the module universe; `$m:x` is read only from modules loaded before the
+goroutines start; module bodies produce no output.
+
+For every program of the class and EVERY concurrent execution that runs to the
+end: there is a sequential order — the evaluations one after the other, each
+run alone from start to return (`SeqExec`) — that ends with the same shared
+state (all counts: counters, flags, which modules are loaded and how often
+their bodies ran) and gives every evaluation of every goroutine the same result
+(compilation verdict and outputs as a multiset).
+
+The sequential order exists because the sequential run of a program of the
+class always finishes (`C39_sequential_run_terminates`). -/
+theorem C39_serialisable_commutative (w : Conc.World) (prog : List (List Action)) (acc0 : Conc.Acc)
+    (hc : Conc.inClass w prog = true) (hf : Conc.Fresh acc0)
+    (c : Conc.Cfg) (hx : Conc.Exec w (Conc.Cfg.init acc0 prog) c) (ht : c.terminal) :
+    ∃ cS, Conc.SeqExec w (Conc.Cfg.init acc0 prog) cS ∧ cS.terminal ∧
+      cS.acc = c.acc ∧ Conc.SameResults cS c := by
+  have hfuel := Conc.serialRun_total hc acc0
+  cases hr : Conc.serialRun w (Conc.fuelFor w prog) acc0 prog with
+  | none => rw [hr] at hfuel; cases hfuel
+  | some cS =>
+    obtain ⟨hs, hts⟩ := Conc.serialRun_sound hr
+    obtain ⟨hb, hk⟩ := Conc.inClass_spec hc acc0
+    obtain ⟨h1, h2⟩ := Conc.unique hb hf hk (Conc.exec_of_seqExec hs) hx hts ht
+    exact ⟨cS, hs, hts, h1, Conc.sameResults_of_views hts ht h2⟩
+
+/-- … and it does not matter which sequential order: EVERY sequential order
+that runs to the end gives the result of every concurrent execution. -/
+theorem C39_serialisable_every_order (w : Conc.World) (prog : List (List Action)) (acc0 : Conc.Acc)
+    (hc : Conc.inClass w prog = true) (hf : Conc.Fresh acc0)
+    (c : Conc.Cfg) (hx : Conc.Exec w (Conc.Cfg.init acc0 prog) c) (ht : c.terminal)
+    (cS : Conc.Cfg) (hs : Conc.SeqExec w (Conc.Cfg.init acc0 prog) cS) (hts : cS.terminal) :
+    cS.acc = c.acc ∧ Conc.SameResults cS c := by
+  obtain ⟨hb, hk⟩ := Conc.inClass_spec hc acc0
+  obtain ⟨h1, h2⟩ := Conc.unique hb hf hk (Conc.exec_of_seqExec hs) hx hts ht
+  exact ⟨h1, Conc.sameResults_of_views hts ht h2⟩
+
+/-- Non-vacuity: a program of the class (two goroutines importing the circular
+pair m2/m3, counters, a flag, `peach`, a second action), an INTERLEAVED
+execution of it that runs to the end (round-robin schedule), the sequential run
+finishes, and what is observed of both is the same: counters 6 and 2, flag 1,
+modules m2 and m3 loaded once each, outputs {7,7} and {9}. -/
+example : Conc.inClass Conc.harnessWorld Conc.Witness.prog = true ∧
+    Conc.Exec Conc.harnessWorld Conc.Witness.init
+      (Conc.runSched Conc.harnessWorld (Conc.Witness.roundRobin 40) Conc.Witness.init) ∧
+    (Conc.runSched Conc.harnessWorld (Conc.Witness.roundRobin 40) Conc.Witness.init).isTerminal = true ∧
+    (Conc.serialRun Conc.harnessWorld 100 Conc.zero Conc.Witness.prog).isSome = true ∧
+    (Conc.observe (Conc.runSched Conc.harnessWorld (Conc.Witness.roundRobin 40) Conc.Witness.init)).1 = [6, 2, 0, 0] ∧
+    (Conc.observe (Conc.runSched Conc.harnessWorld (Conc.Witness.roundRobin 40) Conc.Witness.init)).2.1 =
+      [false, true, false, false] ∧
+    (Conc.observe (Conc.runSched Conc.harnessWorld (Conc.Witness.roundRobin 40) Conc.Witness.init)).2.2.1 =
+      [0, 0, 1, 1, 0, 0, 0] ∧
+    (Conc.observe (Conc.runSched Conc.harnessWorld (Conc.Witness.roundRobin 40) Conc.Witness.init)).2.2.2 =
+      [[(true, [some 7, some 7])], [(true, [some 9]), (true, [])]] :=
+  ⟨by decide, Conc.runSched_sound _ _, by decide, by decide, by decide, by decide, by decide, by decide⟩
+
+/-- The class cannot be widened to reads of `$m:x` of a module that is loaded
+while the goroutines run: the program `use m0; put $m0:x` in two goroutines is
+outside the class, it has a concurrent execution in which an evaluation returns
+`$nil` (goroutine 1 finds m0 installed by goroutine 0, whose body has not run
+yet), and the sequential run gives 100 to both.  This is the finding
+`module-partial-visible`, which the model contains on purpose; the same program
+is corpus op 1. -/
+theorem C39_counterexample_partial_visible :
+    Conc.inClass Conc.harnessWorld Conc.Witness.partialProg = false ∧
+    (∃ c, Conc.Exec Conc.harnessWorld (Conc.Cfg.init Conc.zero Conc.Witness.partialProg) c ∧
+      (Conc.observe c).2.2.2 = [[], [(true, [none])]]) ∧
+    (Conc.serialRun Conc.harnessWorld 100 Conc.zero Conc.Witness.partialProg).map
+        (fun c => (Conc.observe c).2.2.2) =
+      some [[(true, [some 100])], [(true, [some 100])]] :=
+  ⟨by decide,
+   ⟨_, Conc.runSched_sound Conc.Witness.partialSched _, by decide⟩,
+   by decide⟩
+
+/-- The sequential run of a program of the class always finishes: every
+evaluation terminates when it runs alone (the statements are finite,
+`each`/`peach` run a fixed number of times, a module body runs at most once per
+module of the finite universe); `Conc.fuelFor` steps per evaluation suffice.
+(Outside the class it need not: a module body may import a module outside the
+universe, whose body imports the next one, …) -/
+theorem C39_sequential_run_terminates (w : Conc.World) (prog : List (List Action)) (acc0 : Conc.Acc)
+    (hc : Conc.inClass w prog = true) :
+    (Conc.serialRun w (Conc.fuelFor w prog) acc0 prog).isSome = true :=
+  Conc.serialRun_total hc acc0
+
+/-- Non-vacuity: the bound for the witness program in the world of the harness. -/
+example : Conc.fuelFor Conc.harnessWorld Conc.Witness.prog = 144 := by decide
 
 /-- PARTIAL: for the programs the harness generates, every sequential order of
 ALL evaluations of an op leaves the same shared state (counters, flags, loaded
